@@ -106,7 +106,12 @@ func Load(patterns ...string) (*Program, error) {
 	}
 	sort.Slice(p.All, func(i, j int) bool { return p.All[i].PkgPath < p.All[j].PkgPath })
 	for _, pk := range p.All {
-		Normalise(pk)
+		func() {
+			// normalisation is an aid against false alarms, never a reason to fail: on an unexpected syntax shape
+			// the package is analysed as written
+			defer func() { _ = recover() }()
+			Normalise(pk)
+		}()
 	}
 	return p, nil
 }
@@ -123,7 +128,10 @@ func Normalise(pk *packages.Package) {
 	if info == nil {
 		return
 	}
-	defer normaliseStmts(pk)
+	defer func() {
+		defer func() { _ = recover() }()
+		normaliseStmts(pk)
+	}()
 	flip := map[token.Token]token.Token{token.LSS: token.GTR, token.GTR: token.LSS, token.LEQ: token.GEQ, token.GEQ: token.LEQ, token.EQL: token.EQL, token.NEQ: token.NEQ}
 	isConstOrNil := func(e ast.Expr) bool {
 		if tv, ok := info.Types[e]; ok && (tv.Value != nil || tv.IsNil()) {
